@@ -13,7 +13,7 @@ static void PFX(obs)(const char *pre, T o)
     } else {
         long alloc = (long) __sanitizer_get_allocated_size(o->s);
         int nul = (len >= 0 && len < alloc) ? (o->s[len] == 0) : 0;
-        printf("%sl=%ld %st=", pre, len);
+        printf("%sl=%ld %st=", pre, len, pre);
         c01_text_obs((unsigned char *) o->s, (len < alloc) ? len : alloc);
         printf(" %sf=%d%d%d %sz=%ld", pre, nul, (size > len) ? 1 : 0, (alloc >= size) ? 1 : 0, pre, size);
     }
